@@ -179,7 +179,13 @@ fn options(rng: &mut Rng) -> Vec<u8> {
             9 => (14, rng.bytes(2 * rng.clone().range(0, 3))),   // key tag
             10 => {
                 let mut v = rng.u16().to_be_bytes().to_vec();    // extended error
-                v.extend_from_slice(b"some text");
+                match rng.below(4) {
+                    0 => {}
+                    1 => v.extend_from_slice(b"some text"),
+                    2 => v.extend_from_slice("gr\u{fc}\u{df}e \u{2713}".as_bytes()),
+                    // RFC 8914 wants UTF-8; the parser deliberately keeps anything else as raw octets
+                    _ => v.extend(rng.bytes(rng.clone().range(1, 12))),
+                }
                 (15, v)
             }
             _ => (rng.range(20, 65000) as u16, opaque(rng, 0, 30)),
